@@ -3,7 +3,7 @@
 LOCKSET, CVPROTO, protocol ORDER, STRIDE, Parallel2DExecutor pass flags and
 ParallelWorkQueue worker pairing (DESIGN section 3, C33)."""
 from ..facts import extract, units_matching, Program, AnalysisBroken, sx_find, sx_str
-from ..match import (expand_locals, ev_write, is_call, call_args, call_obj, field_of, var_of, guard_blocks, lvalue_root, branch_edges)
+from ..match import (known_edges, only_via, expand_locals, ev_write, is_call, call_args, call_obj, field_of, var_of, guard_blocks, lvalue_root, branch_edges)
 from ..lockset import LockModel
 from .c18 import _in_loop, _reaches, _loop_heads, _is_lit, _is_var
 
@@ -484,6 +484,293 @@ def p2d_split(chk, P):
     chk.judge(okl, "P2D", "split:leaf-stores-(x,y)-in-its-pass", f.loc, "a leaf square (x, y) is appended to squares[pass-1]")
 
 
+# ---- P2D partition/executor coupling: a finite case analysis over guard conditions ----
+_REPS = (0, 1, 2, 3, 4, 5, 8, 16, 32)
+_BR = ("if", "cond", "while", "for", "do", "||", "&&")
+
+
+def _subs(x):
+    if isinstance(x, list):
+        if x and isinstance(x[0], str):
+            yield x
+        for y in x:
+            yield from _subs(y)
+
+
+def _ival(x, env, fn=None):
+    """three-valued value of a guard expression: literals, variables bound in env, the partition queries (binStart.size(),
+    squares.size()/empty(), executor) bound in env, casts, arithmetic, comparisons, std::min/max, !, &&, ||.  None = unknown.
+    env['?'] (if present) is the value of any other leaf."""
+    if not isinstance(x, list) or not x:
+        return None
+    k = x[0]
+    if k == "lit":
+        t = str(x[1])
+        if t in ("true", "false"):
+            return t == "true"
+        if t in ("nullptr", "NULL"):
+            return 0
+        try:
+            return int(t.rstrip("uUlL"))
+        except ValueError:
+            return None
+    if k == "cast" and len(x) == 3:
+        return _ival(x[2], env, fn)
+    if k == "var":
+        if x[1] in env:
+            return env[x[1]]
+        if fn is not None:
+            y = expand_locals(fn, x)
+            if y != x:
+                return _ival(y, env, fn)
+        return env.get("?")
+    if k == "mem":
+        if field_of(x) == P2D + "::executor":
+            return env.get("executor", env.get("?"))
+        return env.get("?")
+    if k == "call":
+        name = str(x[1]).split("::")[-1]
+        f = field_of(x[2]) if len(x) > 2 and isinstance(x[2], list) else None
+        if f == P2D + "::binStart" and name == "size" and "binStart.size" in env:
+            return env["binStart.size"]
+        if f == P2D + "::squares" and name == "size" and "squares.size" in env:
+            return env["squares.size"]
+        if f == P2D + "::squares" and name == "empty" and "squares.size" in env:
+            return env["squares.size"] == 0
+        if name in ("max", "min") and len(x) > 3 and isinstance(x[3], list) and len(x[3]) == 2:
+            a, b = _ival(x[3][0], env, fn), _ival(x[3][1], env, fn)
+            if a is not None and b is not None:
+                return max(a, b) if name == "max" else min(a, b)
+            return None
+        return env.get("?")
+    if k == "un" and len(x) == 3 and x[1] == "!":
+        v = _ival(x[2], env, fn)
+        return None if v is None else not v
+    if k == "op" and len(x) == 4:
+        o = x[1]
+        a, b = _ival(x[2], env, fn), _ival(x[3], env, fn)
+        if o == "||":
+            if (a is not None and a) or (b is not None and b):
+                return True
+            return None if a is None or b is None else False
+        if o == "&&":
+            if (a is not None and not a) or (b is not None and not b):
+                return False
+            return None if a is None or b is None else True
+        if a is None or b is None:
+            return None
+        try:
+            if o in ("/", "%") and (not b or a < 0 or b < 0):
+                return None
+            return {"+": lambda: a + b, "-": lambda: a - b, "*": lambda: a * b, "/": lambda: a // b, "%": lambda: a % b,
+                    "<<": lambda: a << b, ">>": lambda: a >> b,
+                    "==": lambda: a == b, "!=": lambda: a != b, "<": lambda: a < b, "<=": lambda: a <= b, ">": lambda: a > b, ">=": lambda: a >= b}[o]()
+        except (KeyError, TypeError, ValueError):
+            return None
+    return None
+
+
+def _dead_edges(fn, env, frozen=()):
+    """the untaken side of every two-way branch whose condition has a known value under env.  A condition over a variable in `frozen`
+    counts only in blocks after which that variable is never assigned (its value at the branch is its value from then on)."""
+    dead = set()
+    for b, blk in fn.blocks.items():
+        t = blk.get("term")
+        if not t or t.get("cond") is None or t["k"] not in _BR or len(blk["succ"]) != 2:
+            continue
+        c = t["cond"]
+        vs = {y[1] for y in _subs(c) if y[0] == "var"}
+        stale = False
+        for v in frozen:
+            if v in vs and fn.path_exists((b, len(blk.get("ev", [])) - 1), lambda e, v=v: e["k"] == "assign" and var_of(e["lhs"]) == v, lambda e: False, lift=0) is not None:
+                stale = True
+        if stale:
+            continue
+        val = _ival(c, env, fn)
+        if val is None:
+            continue
+        dead.add((b, blk["succ"][1 if val else 0]))
+    return dead
+
+
+def _live_blocks(fn, dead):
+    seen, st = {fn.entry}, [fn.entry]
+    infeas = fn.infeasible_edges()
+    while st:
+        b = st.pop()
+        for s in fn.succs(b):
+            if s in seen or (b, s) in dead or (b, s) in infeas:
+                continue
+            seen.add(s)
+            st.append(s)
+    return seen
+
+
+def _init_bins(chk, P):
+    """init(n): for each representative n, is the partition one bin (n := 1) or 1 << levels bins (levels >= L)?"""
+    f = P.fn(P2D + "::init")
+    par = f.d["params"][0][0]
+    rs = [e for _, _, e in f.calls() if str(e.get("fn", "")).endswith("::resize") and field_of(call_obj(e)) == P2D + "::binStart"]
+    if not chk.shape(len(rs) == 1 and call_args(rs[0]), "P2D", "partition:init-sizes-binStart", f.loc, "init sizes binStart once (%d)" % len(rs)):
+        return None
+    bv = [y[1] for y in _subs(call_args(rs[0])[0]) if y[0] == "var"]
+    if not chk.shape(len(bv) == 1, "P2D", "partition:bins-variable", f.loc, "binStart.resize(<bins>+1)"):
+        return None
+    bv = bv[0]
+    res = {}
+    for r in _REPS:
+        live = _live_blocks(f, _dead_edges(f, {par: r}, frozen=(par,)))
+        vals = []
+        for b, i, e in f.events(lambda e: e["k"] in ("assign", "decl")):
+            if b not in live:
+                continue
+            if e["k"] == "decl" and e["var"] == bv and e.get("init") is not None:
+                vals.append(e["init"])
+            if e["k"] == "assign" and var_of(e["lhs"]) == bv and e["lhs"][0] == "var":
+                vals.append(e["rhs"] if e["op"] == "=" else None)
+        cls = set()
+        for v in vals:
+            if _ival(v, {}) == 1:
+                cls.add("single")
+            elif isinstance(v, list) and v[0] == "op" and v[1] == "<<" and _ival(v[2], {}) == 1 and v[3][0] == "var":
+                lv = v[3][1]
+                d = [dd for _, _, dd in f.events(lambda dd: dd["k"] == "decl" and dd["var"] == lv)]
+                lo = _ival(d[0].get("init"), {}) if len(d) == 1 else None
+                if lo is None:
+                    cls.add("?")
+                    continue
+                # increments every path from the declaration to this assignment passes
+                tgt = [(bb, ii) for bb, ii, ee in f.events(lambda ee: ee["k"] == "assign" and ee.get("rhs") is v)]
+                for bb, ii, inc in f.events(lambda ee: ee["k"] == "assign" and ee["op"] == "++" and var_of(ee["lhs"]) == lv):
+                    if f.path_exists(None, lambda q: q.get("rhs") is v, lambda q, inc=inc: q is inc, lift=0) is None:
+                        lo += 1
+                cls.add(("pow2", lo))
+            else:
+                cls.add("?")
+        res[r] = cls
+    ok = all(len(c) == 1 and "?" not in c for c in res.values())
+    if not chk.shape(ok, "P2D", "partition:init-bin-count", f.loc, "for every processor count init makes 1 bin or 1<<levels bins: %s" % {r: sorted(map(str, c)) for r, c in res.items()}):
+        return None
+    return {r: next(iter(c)) for r, c in res.items()}
+
+
+def _ctor_cases(chk, P, c, bins_of):
+    """(executor is null?, bin class) combinations a constructor can leave the object in"""
+    ini = [(b, i, e) for b, i, e in c.calls(P2D + "::init")]
+    if not chk.shape(len(ini) == 1, "P2D", "partition:ctor-calls-init", c.loc, "constructor calls init once (%d)" % len(ini)):
+        return None
+    ib, ii, ie = ini[0]
+    A = call_args(ie)[0]
+    v = var_of(A) if A[0] == "var" else None
+    start = None
+    for it in c.d.get("inits", []):
+        if it.get("field") == P2D + "::executor" and it.get("written"):
+            start = "null" if _ival(it["init"], {}) == 0 else "pool"
+    cases = set()
+    for r in _REPS:
+        if v is not None:
+            env, frozen = {v: r}, (v,)
+            arg = r
+        else:
+            env, frozen = {}, ()
+            leaves = {sx_str(y) for y in _subs(A) if y[0] in ("call", "mem", "var") and y[1] not in ("std::max", "std::min", "max", "min") and not str(y[1]).endswith(("::max", "::min"))}
+            arg = _ival(A, {"?": r}) if len(leaves) <= 1 else r
+            if arg is None:
+                arg = r
+        dead = _dead_edges(c, env, frozen)
+        live = _live_blocks(c, dead)
+        if ib not in live:
+            continue
+        # last write of executor on each live path to the init call
+        states = set()
+        seen = set()
+        st = [(c.entry, start)]
+        while st:
+            b, s = st.pop()
+            if (b, s) in seen:
+                continue
+            seen.add((b, s))
+            done = False
+            for j, e in enumerate(c.blocks[b].get("ev", [])):
+                if e is ie:
+                    states.add(s)
+                    done = True
+                    break
+                if e["k"] == "assign" and field_of(e["lhs"]) == P2D + "::executor" and e["lhs"][0] == "mem":
+                    val = _ival(e.get("rhs"), {})
+                    s = "null" if val == 0 else ("pool" if e.get("rhs") and e["rhs"][0] in ("new", "un", "addr") else "any")
+            if done:
+                continue
+            for t in c.succs(b):
+                if (b, t) not in dead and t in live:
+                    st.append((t, s))
+        cl = bins_of.get(arg if arg in bins_of else max(k for k in bins_of if k <= max(arg, 0)))
+        for s in states:
+            for s2 in (("null", "pool") if s in ("any", None) else (s,)):
+                cases.add((s2, cl))
+    return cases
+
+
+def p2d_partition(chk, P, ex):
+    """every state a constructor can leave the object in (executor null or a pool; one bin or 2^k bins) is one in which execute()
+    runs exactly one diagonal pass and that pass covers bins [0, n)"""
+    bins_of = _init_bins(chk, P)
+    if bins_of is None:
+        return
+    ctors = [m for m in P.methods_of(P2D) if m.kind == "ctor" and m.blocks and len(m.d["params"]) == 2]
+    if not chk.shape(len(ctors) >= 2, "P2D", "partition:constructors", ex.loc, "two constructors (%d)" % len(ctors)):
+        return
+    TT = P2D + "::TriangleTask"
+
+    def ctor_of(x):
+        x = expand_locals(ex, x) if x and x[0] == "var" else x
+        return x if isinstance(x, list) and x and x[0] == "ctor" and x[1] == TT else None
+
+    n_inst = 0
+    for c in ctors:
+        cases = _ctor_cases(chk, P, c, bins_of)
+        if cases is None:
+            continue
+        sig = "(%s)" % ",".join(p[1] for p in c.d["params"])
+        for s, cl in sorted(cases, key=str):
+            ns = (1,) if cl == "single" else tuple(1 << k for k in range(cl[1], cl[1] + 5))
+            bad = []
+            for n in ns:
+                env = {"executor": 0 if s == "null" else 1, "binStart.size": n + 1, "squares.size": n - 1 if n > 1 else 0}
+                dead = _dead_edges(ex, env)
+                live = _live_blocks(ex, dead)
+                sites = []
+                for b, i, e in ex.calls():
+                    if b not in live:
+                        continue
+                    fnm = str(e.get("fn", ""))
+                    if fnm == TT + "::execute":
+                        t = ctor_of(call_obj(e))
+                        if t:
+                            w, idx = _ival(t[2][3], env, ex), _ival(call_args(e)[0], env, ex)
+                            sites.append((e, None if w is None or idx is None else (w * idx, w * (idx + 1)), "TriangleTask(width %s).execute(%s)" % (w, idx)))
+                    elif fnm == "SimTK::ParallelExecutor::execute" and call_args(e):
+                        t = ctor_of(call_args(e)[0])
+                        if t:
+                            w, cnt = _ival(t[2][3], env, ex), _ival(call_args(e)[1], env, ex)
+                            sites.append((e, None if w is None or cnt is None else (0, w * cnt), "executor->execute(TriangleTask(width %s), %s)" % (w, cnt)))
+                if len(sites) != 1:
+                    bad.append("%d bins: %d diagonal passes can run (%s)" % (n, len(sites), "; ".join(t[2] for t in sites)))
+                    continue
+                e, rng, txt = sites[0]
+                if rng != (0, n):
+                    bad.append("%d bin%s: line %d %s covers bins [%s) of [0, %d)" % (n, "" if n == 1 else "s", e["line"], txt, "?" if rng is None else "%d, %d" % rng, n))
+                    continue
+                p = ex.path_exists(None, "exit", lambda q, e=e: q is e, avoid_edges=dead, lift=0)
+                if p is not None:
+                    bad.append("%d bins: a path to the exit skips the diagonal pass (blocks %s)" % (n, p))
+            n_inst += 1
+            what = "executor %s, %s" % ("absent" if s == "null" else "present", "one bin" if cl == "single" else ">= %d bins" % (1 << cl[1]))
+            chk.judge(not bad, "P2D", "partition:%s:%s:%s" % (sig, s, "single" if cl == "single" else "pow2"), c.loc,
+                      ("constructor %s can leave the object with %s; execute() then " % (sig, what)) + ("; ".join(bad) if bad else "runs one diagonal pass over all the bins"))
+    chk.shape(n_inst >= 3, "P2D", "partition:cases", ex.loc, "constructor states enumerated (%d)" % n_inst)
+
+
 def p2d(chk, P):
     chk.rule("P2D", "Parallel2DExecutor: the user's initialize runs only in the first (triangle) pass and finish only in the last square pass; "
              "each pass is a separate blocking ParallelExecutor::execute; the non-parallel branch calls initialize/execute/finish itself; "
@@ -492,8 +779,22 @@ def p2d(chk, P):
     p2d_split(chk, P)
     ex = P.fn(P2D + "::execute")
     T2 = "SimTK::Parallel2DExecutor::Task"
-    seq = guard_blocks(ex, lambda c: c[0] == "op" and c[1] == "==" and field_of(c[2]) == P2D + "::executor" and _is_lit(c[3], "0"), 0)
-    chk.judge(len(seq) == 1, "P2D", "execute:sequential-guard", ex.loc, "sequential branch taken iff executor == 0")
+    # the sequential branch: blocks entered only where `executor == 0` or `the partition has one bin` is known
+    one, many = {"binStart.size": 2, "squares.size": 0}, {"binStart.size": 9, "squares.size": 7}
+
+    def _noexec(c):
+        return (c[0] == "op" and c[1] == "==" and len(c) == 4 and ((field_of(c[2]) == P2D + "::executor" and _ival(c[3], {}) == 0) or
+                                                                   (field_of(c[3]) == P2D + "::executor" and _ival(c[2], {}) == 0)))
+
+    def _hasexec(c):
+        return ((c[0] == "op" and c[1] == "!=" and len(c) == 4 and ((field_of(c[2]) == P2D + "::executor" and _ival(c[3], {}) == 0) or
+                                                                    (field_of(c[3]) == P2D + "::executor" and _ival(c[2], {}) == 0))) or
+                (c[0] in ("mem", "cast") and field_of(c) == P2D + "::executor"))
+    K = known_edges(ex, lambda c: _noexec(c) or (_ival(c, one, ex) is True and _ival(c, many, ex) is False),
+                    lambda c: _hasexec(c) or (_ival(c, one, ex) is False and _ival(c, many, ex) is True))
+    seq = {b for b in ex.blocks if b in ex.reachable() and only_via(ex, b, K)}
+    chk.judge(len(seq) >= 1, "P2D", "execute:sequential-guard", ex.loc, "a sequential branch exists, taken only when executor == 0 or the partition has a single bin")
+    p2d_partition(chk, P, ex)
     tri = []
     sq = []
     for b, i, e in ex.events(lambda e: e["k"] == "call" and e.get("ctor")):
@@ -775,6 +1076,14 @@ MUTATIONS = [
     dict(name="seeded (sub-agent): worker exits as soon as finished is set, leaving queued tasks", file=_WQ,
          old="        else {\n            // Woken with nothing queued: the queue is finished and drained.\n            // (Decided here, with the mutex held, not in the loop condition.)\n            done = true;\n        }\n",
          new="        done = owner.isFinished();\n", expect="worker:exit-only-when-queue-empty"),
+    dict(name="execute() falls back only when there is no executor (pre-fix code, F16)", arm=True, file="SimTKcommon/src/Parallel2DExecutor.cpp",
+         old="    if (executor == 0 || binStart.size() == 2) {", new="    if (executor == 0) {", expect="P2D:partition:(int,SimTK::ParallelExecutor &):pool:single"),
+    dict(name="execute() falls back to one bin's triangle on a four-bin partition", file="SimTKcommon/src/Parallel2DExecutor.cpp",
+         old="    if (executor == 0 || binStart.size() == 2) {", new="    if (executor == 0 || binStart.size() <= 5) {", expect="pool:pow2"),
+    dict(name="owning constructor keeps no executor for two processors but init makes four bins", file="SimTKcommon/src/Parallel2DExecutor.cpp",
+         old="    if (numProcessors < 2)\n        executor = 0;", new="    if (numProcessors < 3)\n        executor = 0;", expect="P2D:partition:(int,int):null:pow2"),
+    dict(name="diagonal pass dispatched over bins/4 blocks", file="SimTKcommon/src/Parallel2DExecutor.cpp",
+         old="    executor->execute(triangle, bins/2);", new="    executor->execute(triangle, bins/4);", expect="pool:pow2"),
     dict(name="worker reads the exit flag after unlocking (pre-fix code)", arm=True, file=_PE,
          old="        finished = executor.isFinished();\n        lock.unlock();", new="        lock.unlock();\n        finished = executor.isFinished();",
          expect="LOCKSET:SimTK::ParallelExecutorImpl::finished@SimTK::threadBody"),
